@@ -144,9 +144,7 @@ def C03_agree_full : Prop :=
     descOf E t = some d → hasPy t = true → Agree (fastAlone E d v) (pyValidate E t v)
 
 /-- Proved part 1 — every trait type that is not a compound, except the leaves of
-findings F40 (Callable(allow_none=False)), F41/F42 (TraitCoerceType), F47
-(Instance of a class None is an instance of, allow_none=False), and except
-tuple-subclass instances (F11): full agreement, including "Python raises ⇒ the
+findings F41/F42 (TraitCoerceType), and except tuple-subclass instances (F11): full agreement, including "Python raises ⇒ the
 fast path does not accept". -/
 theorem C03_agree_partial (E : Env) (hE : CastIdem E) (t : TraitType) (d : Desc) (v : Val)
     (hl : t.isLeaf = true) (hc : t.leafClean = true) (hd : descOf E t = some d)
@@ -188,10 +186,9 @@ theorem C03_agree_fails_at_tuple_subclass :
     pyValidate E0 (.tuple [.int, .int]) (.tuple true [Val.ofInt 1, Val.ofInt 2])
       = .ok (.tuple false [Val.ofInt 1, Val.ofInt 2]) := by decide
 
-/-- F40: Callable(allow_none=False) on None. -/
-theorem C03_agree_fails_at_callable_none :
-    fastAlone E0 (.callable (some false)) Val.none = .traitError ∧
-    pyValidate E0 (.callable false) Val.none = .ok Val.none := by decide
+/-- F40 repaired (58d344c): Callable(allow_none=False) rejects None on both paths. -/
+example : fastAlone E0 (.callable (some false)) Val.none = .traitError ∧
+    pyValidate E0 (.callable false) Val.none = .traitError := by decide
 
 /-- F41: Trait(int) on True — and F42: Trait(float) on 3. -/
 theorem C03_agree_fails_at_coerce :
@@ -200,9 +197,10 @@ theorem C03_agree_fails_at_coerce :
     (fastAlone E0 (.coerce .float [some .int]) (Val.ofInt 3) = .ok (Val.ofInt 3) ∧
      pyValidate E0 (.coerceH .float) (Val.ofInt 3) ≠ .ok (Val.ofInt 3)) := by decide
 
-/-- F47: Instance(object, allow_none=False) on None. -/
-theorem C03_agree_fails_at_instance_object_none :
-    fastAlone E0 (.instChk false .object) Val.none = .ok Val.none ∧
+/-- F47 repaired (0abe830): Instance(object, allow_none=False) rejects None on both
+paths, stand-alone and as a compound alternative. -/
+example : fastAlone E0 (.instChk false .object) Val.none = .traitError ∧
+    fastInCompound E0 (.instChk false .object) Val.none = .traitError ∧
     pyValidate E0 (.instance .object false 0 Val.none) Val.none = .traitError := by decide
 
 /-- F43a: Either(CInt, Float) on inf — the Python path raises, the fast path accepts. -/
@@ -213,8 +211,8 @@ theorem C03_agree_fails_at_compound_exception :
 /-- The full statement is false of the model (hence, by correspondence, of the code). -/
 theorem C03_agree_full_is_false : ¬ C03_agree_full := by
   intro h
-  have := h E0 E0_castIdem (.callable false) (.callable (some false)) Val.none (by simp [descOf]) rfl
-  rw [C03_agree_fails_at_callable_none.1, C03_agree_fails_at_callable_none.2] at this
+  have := h E0 E0_castIdem (.coerceH .int) (.coerce .int []) (Val.ofBool true) (by simp [descOf, coerceRest]) rfl
+  rw [C03_agree_fails_at_coerce.1.1, C03_agree_fails_at_coerce.1.2] at this
   simp [Agree] at this
 
 end TraitsVerif.Props.C03
